@@ -507,7 +507,7 @@ func cmdCheck(args []string) int {
 	for i := range procs {
 		go func(i int) { procs[i].cmd.Wait(); done <- i }(i)
 	}
-	hardLimit := time.After(time.Duration((budget*1.5+240)*float64(time.Second)))
+	hardLimit := time.After(time.Duration((budget*1.5 + 240) * float64(time.Second)))
 	finished := 0
 	watchdog := false
 	for finished < len(procs) {
@@ -629,32 +629,32 @@ func cmdCheck(args []string) int {
 func writeEvidence(prop, tier string, vseed uint64, tot *WorkerResult, states, trans, shapes, nts int, wall float64, nviol int, workers int) {
 	meta := engine.PropertyMeta(prop)
 	cov := map[string]interface{}{
-		"evaluations":         tot.Runs,
-		"distinct_nontrivial": nts,
-		"rule":                meta.Rule,
-		"samples":             tot.Samples,
-		"runs":                tot.Runs,
-		"runs_per_hour":       float64(tot.Runs) / wall * 3600,
-		"seeds_per_hour":      float64(tot.Runs) / wall * 3600,
-		"steps":               tot.Steps,
-		"blocks":              tot.Blocks,
-		"txs_delivered":       tot.Txs - tot.TxNotDelivered,
-		"txs_ok":              tot.TxOK,
-		"txs_failed":          tot.TxFail,
+		"evaluations":                    tot.Runs,
+		"distinct_nontrivial":            nts,
+		"rule":                           meta.Rule,
+		"samples":                        tot.Samples,
+		"runs":                           tot.Runs,
+		"runs_per_hour":                  float64(tot.Runs) / wall * 3600,
+		"seeds_per_hour":                 float64(tot.Runs) / wall * 3600,
+		"steps":                          tot.Steps,
+		"blocks":                         tot.Blocks,
+		"txs_delivered":                  tot.Txs - tot.TxNotDelivered,
+		"txs_ok":                         tot.TxOK,
+		"txs_failed":                     tot.TxFail,
 		"txs_rejected_by_signature_rule": tot.TxNotDelivered,
-		"simulated_seconds":   tot.SimSeconds,
-		"distinct_states":     states,
-		"distinct_transition_classes": trans,
-		"distinct_run_shapes": shapes,
-		"faults_fired":        tot.Faults,
-		"faults_configured":   tot.FaultsConfigured,
-		"reach_probes":        tot.Probes,
-		"msg_outcomes":        tot.MsgOutcomes,
-		"known_findings_hit":  tot.Known,
-		"workers":             workers,
-		"real_components":     engine.RealComponents,
-		"stub_components":     engine.StubComponents,
-		"hooks_enabled":       engine.HooksEnabled,
+		"simulated_seconds":              tot.SimSeconds,
+		"distinct_states":                states,
+		"distinct_transition_classes":    trans,
+		"distinct_run_shapes":            shapes,
+		"faults_fired":                   tot.Faults,
+		"faults_configured":              tot.FaultsConfigured,
+		"reach_probes":                   tot.Probes,
+		"msg_outcomes":                   tot.MsgOutcomes,
+		"known_findings_hit":             tot.Known,
+		"workers":                        workers,
+		"real_components":                engine.RealComponents,
+		"stub_components":                engine.StubComponents,
+		"hooks_enabled":                  engine.HooksEnabled,
 	}
 	if len(tot.Samples) == 0 {
 		cov["samples"] = []string{"no non-trivial run in this batch"}
